@@ -1,6 +1,7 @@
 //! The simulated world: dictated-read transports, the simulated MPD server, the session engine.
 pub mod analysis;
 pub mod capture;
+pub mod listing;
 pub mod typedlists;
 pub mod wirerun;
 pub mod world;
